@@ -61,6 +61,9 @@ var smallInputs = map[string][]string{
 		`<script type="application/ld+json">{ "a" : [ 1.0 , 2e3 ] }</script><script type="text/template"><b> raw </b></script><style media="all">@media screen { a { margin : 10px 10px 10px 10px } }</style>`,
 		`<p>text</p><?php echo 1 ?><!-- trailing comment --><![CDATA[ x ]]><style>a{b:c}</style><script>x=1</script><textarea>t</textarea>`,
 		`x`, ``, `<`, `<a`, `<!--`, `<p title="&quot;a&quot;">&lt;&amp;&gt; &#39; &copy;</p>`,
+		// typed raw elements followed by untyped ones that carry other attributes (the type of one element says nothing about the next)
+		"<style type=\"text/css\">a { b : c }</style><script nonce=\"n1\">var t = { // table\n k : 1 };\nvar x = t.k; // setup\nif (x) { // then\n y( x )\n}\nfunction g(a){\n // double\n return a*2\n}\n</script><script type=\"text/template\"><i> raw </i></script><style media=\"screen\" id=\"s2\">/* c */ p > b { margin : 0px 0px }</style><script id=\"s3\" data-x=\"1\">z = 2 // two\nw = z * 2</script>",
+		"<script type=\"application/ld+json\">{ \"a\" : 1.0 }</script><script async id=\"a1\">var q = [ 1 , 2 ] // list\nq.push( 3 )</script><style type=\"text/css\" media=\"all\">a{b:c}</style>",
 	},
 	"text/css": {
 		`a { color : #ff0000 ; margin : 0px 0px 0px 0px ; } /* c */ @media screen and (min-width: 100px) { b { font-weight: bold; background: url("data:image/svg+xml,%3Csvg xmlns='http://www.w3.org/2000/svg'%3E%3C/svg%3E") } }`,
